@@ -1,1 +1,222 @@
-// in-crate Kani harnesses included into the real crate under cfg(kani) (see MANIFEST.hooks)
+// in-crate Kani harnesses for http/multipart.rs (included under cfg(kani)): C09-P2 (CrlfLines / try_parse level), C10.
+//
+// STATUS (measured, Kani 0.68 / CBMC 6.11): NONE of these harnesses finishes in CBMC.  CrlfLines uses
+// `memchr::memchr_iter`, i.e. memchr's private `unsafe fn memchr_raw` -> SSE2 `One::find_raw`; the length test
+// `end - start < 16` is a difference of pointer-to-integer casts that symex cannot decide, so the vector path is
+// explored under Kani's SIMD model: c09_p2_next_line_len0_3 was still in symex after 540 s (2.9 GB), the finding
+// harness after 433 s (2.9 GB, inside the FIRST memchr_iter step).  The function cannot be stubbed from inside the
+// crate: the replacement would have to be an `unsafe fn` and the workspace forbids unsafe code.
+// The harness functions are kept because they are replayed NATIVELY (gen/c09_native_replay_multipart.py): the
+// finding fails natively for c = 1, 2, 3, 5, the main harness passes for c = 4, 6, the whole form parses.
+#[allow(clippy::all, clippy::pedantic, dead_code, unused_imports, unused_variables)]
+mod verif_kani_c09 {
+    use super::*;
+    use std::task::{Context, Poll};
+
+    /// `core::arch::x86_64::__cpuid_count` -> zeros (memchr / httparse pick their non-AVX code paths).
+    pub fn cpuid_zero(_leaf: u32, _sub: u32) -> core::arch::x86_64::CpuidResult {
+        core::arch::x86_64::CpuidResult { eax: 0, ebx: 0, ecx: 0, edx: 0 }
+    }
+
+    /// alphabet of the CrlfLines harnesses: CR, LF, '-', the boundary byte 'b', another byte 'x'
+    fn in_alphabet(c: u8) -> bool {
+        c == b'\r' || c == b'\n' || c == b'-' || c == b'b' || c == b'x'
+    }
+
+    fn same_slice(a: &[u8], b: &[u8]) -> bool {
+        a.len() == b.len() && (a.is_empty() || a.as_ptr() == b.as_ptr())
+    }
+
+    /// position of the LF of the first CRLF pair of `s`
+    fn first_crlf<const N: usize>(s: &[u8; N]) -> Option<usize> {
+        let mut p = None;
+        let mut i = 1;
+        while i < N {
+            if p.is_none() && s[i - 1] == b'\r' && s[i] == b'\n' {
+                p = Some(i);
+            }
+            i += 1;
+        }
+        p
+    }
+
+    /// `next_line` on every slice of N bytes over the alphabet: the line is the text before the first CRLF and the
+    /// cursor moves behind that CRLF; without any CRLF an empty slice gives None and a non-empty one is handed out
+    /// whole as an (unterminated) last line.
+    fn next_line_case<const N: usize>() {
+        let s: [u8; N] = kani::any();
+        let mut k = 0;
+        while k < N {
+            kani::assume(in_alphabet(s[k]));
+            k += 1;
+        }
+        let mut lines = CrlfLines { slice: &s };
+        let got = lines.next_line();
+        match first_crlf(&s) {
+            Some(i) => {
+                assert!(got.is_some());
+                assert!(same_slice(got.unwrap(), &s[..i - 1]));
+                assert!(same_slice(lines.slice, &s[i + 1..]));
+            }
+            None => {
+                if N == 0 {
+                    assert!(got.is_none());
+                } else {
+                    assert!(got.is_some() && same_slice(got.unwrap(), &s[..]));
+                    assert!(lines.slice.is_empty());
+                }
+            }
+        }
+    }
+
+    #[kani::proof]
+    #[kani::unwind(18)] // memchr's byte-by-byte path for haystacks < 16 bytes
+    #[kani::stub(core::arch::x86_64::__cpuid_count, cpuid_zero)]
+    pub fn c09_p2_next_line_len0_3() {
+        next_line_case::<0>();
+        next_line_case::<1>();
+        next_line_case::<2>();
+        next_line_case::<3>();
+        kani::cover!(true);
+    }
+
+    #[kani::proof]
+    #[kani::unwind(18)]
+    #[kani::stub(core::arch::x86_64::__cpuid_count, cpuid_zero)]
+    pub fn c09_p2_next_line_len5() {
+        next_line_case::<5>();
+        kani::cover!(true);
+    }
+
+    /// `split_to(b"--b")` on every slice of N bytes over the alphabet: if some CRLF-terminated (or last
+    /// unterminated) line equals the pattern, the answer is the text before that line (including the CRLF that
+    /// precedes it) and the cursor moves behind the line; otherwise None and the cursor does not move.
+    fn split_to_case<const N: usize>() {
+        let s: [u8; N] = kani::any();
+        let mut k = 0;
+        while k < N {
+            kani::assume(in_alphabet(s[k]));
+            k += 1;
+        }
+        let pat = b"--b";
+        // reference: scan line starts; a line starts at 0 and after every CRLF
+        let mut start = 0; // start of the current line
+        let mut found: Option<(usize, usize)> = None; // (start of the matching line, start of the rest)
+        let mut i = 0;
+        while i <= N {
+            if found.is_none() {
+                let at_crlf = i + 1 < N + 1 && i >= 1 && i < N && s[i - 1] == b'\r' && s[i] == b'\n';
+                if at_crlf {
+                    // the line is s[start..i-1]
+                    if i - 1 >= start && i - 1 - start == 3 && s[start] == b'-' && s[start + 1] == b'-' && s[start + 2] == b'b' {
+                        found = Some((start, i + 1));
+                    }
+                    start = i + 1;
+                } else if i == N && start < N {
+                    // unterminated last line s[start..N]
+                    if N - start == 3 && s[start] == b'-' && s[start + 1] == b'-' && s[start + 2] == b'b' {
+                        found = Some((start, N));
+                    }
+                }
+            }
+            i += 1;
+        }
+        let mut lines = CrlfLines { slice: &s };
+        let got = lines.split_to(pat);
+        match found {
+            Some((line_start, rest)) => {
+                assert!(got.is_some());
+                assert!(same_slice(got.unwrap(), &s[..line_start]));
+                assert!(same_slice(lines.slice, &s[rest..]));
+            }
+            None => {
+                assert!(got.is_none());
+                assert!(same_slice(lines.slice, &s[..]));
+            }
+        }
+    }
+
+    #[kani::proof]
+    #[kani::unwind(18)]
+    #[kani::stub(core::arch::x86_64::__cpuid_count, cpuid_zero)]
+    pub fn c09_p2_split_to_len6() {
+        split_to_case::<6>();
+        kani::cover!(true);
+    }
+
+    // ------------------------------------------------------------------------------------------
+    // try_parse on the growing buffer of transform_multipart: what the first frame may end in
+    // ------------------------------------------------------------------------------------------
+
+    /// a transport that is never polled by try_parse's early paths
+    struct NoSrc;
+    impl Stream for NoSrc {
+        type Item = Result<Bytes, StdError>;
+        fn poll_next(self: Pin<&mut Self>, _cx: &mut Context<'_>) -> Poll<Option<Self::Item>> {
+            Poll::Ready(None)
+        }
+    }
+
+    /// the beginning of a well-formed form with boundary "bb" (1 field "a" = "v", then the file part)
+    static FORM: &[u8] = b"--bb\r\nContent-Disposition: form-data; name=\"a\"\r\n\r\nv\r\n--bb\r\nContent-Disposition: form-data; name=\"file\"; filename=\"f\"\r\nContent-Type: t\r\n\r\nXYZ\r\n--bb--\r\n";
+
+    #[derive(Clone, Copy, PartialEq, Eq)]
+    enum Verdict {
+        NeedMore,
+        Invalid,
+        Parsed,
+    }
+
+    /// what `transform_multipart` decides after a first frame FORM[..c]
+    fn first_frame_verdict(c: usize) -> Verdict {
+        let mut fields = Vec::new();
+        let pat: Box<[u8]> = Box::from(&b"--bb\r\n"[..]);
+        let r = try_parse(Box::pin(NoSrc), pat, &FORM[..c], &mut fields, b"bb");
+        let v = match &r {
+            Err(_) => Verdict::NeedMore,
+            Ok(Err(_)) => Verdict::Invalid,
+            Ok(Ok(_)) => Verdict::Parsed,
+        };
+        core::mem::forget(r);
+        core::mem::forget(fields);
+        v
+    }
+
+    /// The whole form is well-formed, so whatever prefix the first frame carries the parser must wait for more
+    /// data.  Main harness: prefixes that end exactly behind the boundary text ("--bb", c = 4) or behind the first
+    /// boundary line (c = 6); the other prefixes of the first line are the role of finding
+    /// `multipart_first_frame_inside_boundary_line`.
+    #[kani::proof]
+    #[kani::unwind(18)]
+    #[kani::stub(core::arch::x86_64::__cpuid_count, cpuid_zero)]
+    pub fn c09_p2_first_frame_boundary_line() {
+        let c: usize = kani::any();
+        kani::assume(c == 4 || c == 6);
+        assert!(first_frame_verdict(c) == Verdict::NeedMore);
+        kani::cover!(true);
+    }
+
+    /// FINDING multipart_first_frame_inside_boundary_line: a first frame that ends inside the first boundary line
+    /// ("-", "--", "--b", "--bb\r") makes try_parse answer InvalidFormat (next_line hands out the partial line as a
+    /// line), although the same bytes in one frame parse: the outcome depends on the framing.
+    #[kani::proof]
+    #[kani::unwind(18)]
+    #[kani::stub(core::arch::x86_64::__cpuid_count, cpuid_zero)]
+    pub fn c09_p2_finding_multipart_first_frame_inside_boundary_line() {
+        let c: usize = kani::any();
+        kani::assume(c >= 1 && c <= 5);
+        assert!(first_frame_verdict(c) == Verdict::NeedMore, "a prefix of a well-formed form is refused as InvalidFormat");
+        kani::cover!(true);
+    }
+
+    /// the same form in ONE frame parses (1 field, file part found): together with the finding above this shows that
+    /// the verdict depends on the framing.  (all concrete; used by the native replay, heavy for CBMC: httparse + SSE2
+    /// memchr on 150 bytes)
+    #[kani::proof]
+    #[kani::unwind(160)]
+    #[kani::stub(core::arch::x86_64::__cpuid_count, cpuid_zero)]
+    pub fn c09_p2_whole_form_parses() {
+        assert!(first_frame_verdict(FORM.len()) == Verdict::Parsed);
+        kani::cover!(true);
+    }
+}
